@@ -22,8 +22,11 @@ type FnEntry struct {
 	Arity int    // 0,1,2 ; -1 = aggregation (slice -> value)
 	ArgT  string // int float bool string
 	ResT  string
-	Fn    interface{}
+	Fn    interface{} // handed to the library: wrapped with a call counter at start-up
 }
+
+// rawFn: the functions themselves, used by the harness to fill tables (calls not counted)
+var rawFn = map[string]interface{}{}
 
 func sp(s string) *string { return &s }
 
@@ -116,6 +119,7 @@ var callCount int64
 func init() {
 	for name, e := range fnReg {
 		orig := reflect.ValueOf(e.Fn)
+		rawFn[name] = e.Fn
 		w := reflect.MakeFunc(orig.Type(), func(args []reflect.Value) []reflect.Value {
 			atomic.AddInt64(&callCount, 1)
 			return orig.Call(args)
@@ -142,12 +146,12 @@ func gvCell(v GV) Cell {
 }
 
 func callFn(sym string, args ...GV) GV {
-	e, ok := fnReg[sym]
+	_, ok := fnReg[sym]
 	if !ok {
 		panic("unknown function symbol " + sym)
 	}
 	in := make([]reflect.Value, len(args))
-	ft := reflect.TypeOf(e.Fn)
+	ft := reflect.TypeOf(rawFn[sym])
 	for i, a := range args {
 		if a == nil {
 			in[i] = reflect.Zero(ft.In(i))
@@ -155,7 +159,7 @@ func callFn(sym string, args ...GV) GV {
 			in[i] = reflect.ValueOf(a)
 		}
 	}
-	return reflect.ValueOf(e.Fn).Call(in)[0].Interface()
+	return reflect.ValueOf(rawFn[sym]).Call(in)[0].Interface()
 }
 
 // gvKey gives a map key for memoising argument tuples.
